@@ -356,6 +356,34 @@ impl Ord for Value {
             return res;
         }
 
+        // Containers that are not comparable with `<` still need a total order that agrees with
+        // `==`, otherwise sorting can panic and `unique` merges distinct values
+        match (&self.inner, &other.inner) {
+            (ValueInner::Array(a), ValueInner::Array(b)) => {
+                for (x, y) in a.iter().zip(b.iter()) {
+                    let ord = x.cmp(y);
+                    if ord != Ordering::Equal {
+                        return ord;
+                    }
+                }
+                return a.len().cmp(&b.len());
+            }
+            (ValueInner::Map(a), ValueInner::Map(b)) => {
+                let mut ea: Vec<_> = a.iter().collect();
+                let mut eb: Vec<_> = b.iter().collect();
+                ea.sort_by(|x, y| x.0.cmp(y.0));
+                eb.sort_by(|x, y| x.0.cmp(y.0));
+                for ((ka, va), (kb, vb)) in ea.iter().zip(eb.iter()) {
+                    let ord = ka.cmp(kb).then_with(|| va.cmp(vb));
+                    if ord != Ordering::Equal {
+                        return ord;
+                    }
+                }
+                return ea.len().cmp(&eb.len());
+            }
+            _ => {}
+        }
+
         // Fallback: order by type for consistent ordering of incompatible types.
         // It's nonsensical but this way with the sort filter the None/undefined show up at the end
         fn type_order(v: &ValueInner) -> u8 {
